@@ -28,6 +28,10 @@ class Reg:
     def __init_subclass__(cls, tag=None, **kw):
         super().__init_subclass__(**kw)
         Reg.subs.append((cls.__name__, tag))
+def _hookdeco(f):
+    def wrapped(*a, **k):
+        return ('deco', f(*a, **k))
+    return wrapped
 def _seen(c):
     # what a class decorator can see of the class it is given: its finished members
     return sorted(k for k in vars(c) if not (k.startswith('__') and k.endswith('__')))
@@ -58,6 +62,16 @@ MEMBERS = {
     "dunder": ("def __init__(self, v=3):\n    self.v = v\ndef __repr__(self):\n    return f'K({self.v})'\ndef __eq__(self, o):\n    return self.v == o.v\ndef __len__(self):\n    return self.v",
                "print(K(), K(2) == K(2), len(K(4)))"),
     "lambda": ("f = lambda self: 11\ng = [i * 2 for i in range(3)]", "print(K().f(), K.g)"),
+    # the two hooks type.__new__ makes class methods implicitly - when, and only when, the member is a plain function
+    "hook-getitem": ("def __class_getitem__(cls, key):\n    return (cls.__name__, key)", "print(K[1], K['a'])"),
+    "hook-getitem-cm": ("@classmethod\ndef __class_getitem__(cls, key):\n    return (cls.__name__, key)", "print(K[1], K['a'])"),
+    "hook-getitem-deco": ("@_hookdeco\ndef __class_getitem__(cls, key):\n    return (cls.__name__, key)", "print(K[2])"),
+    "hook-subclass": ("subs = []\ndef __init_subclass__(cls, **kw):\n    super().__init_subclass__(**kw)\n    cls.subs.append(cls.__name__)",
+                      "class S1(K):\n    pass\nprint(K.subs, S1.subs)"),
+    "hook-subclass-cm": ("subs = []\n@classmethod\ndef __init_subclass__(cls, **kw):\n    super().__init_subclass__(**kw)\n    cls.subs.append(cls.__name__)",
+                         "class S1(K):\n    pass\nprint(K.subs, S1.subs)"),
+    "hook-subclass-deco": ("subs = []\n@_hookdeco\ndef __init_subclass__(cls, **kw):\n    cls.subs.append(cls.__name__)",
+                           "class S1(K):\n    pass\nprint(K.subs)"),
 }
 NEEDS_A = {"super0", "super2"}
 
